@@ -467,6 +467,15 @@ func (s *session) newManifest(rec *sessionRecord, v *version) (err error) {
 		}
 	}
 	err = s.stor.SetMeta(fd)
+	if err != nil {
+		// The switch may have taken effect although an error was reported
+		// (e.g. the rename succeeded and a later sync failed). If the pointer
+		// names the new manifest it is in effect, and removing the file would
+		// leave the DB without an entry point.
+		if cur, gerr := s.stor.GetMeta(); gerr == nil && cur == fd {
+			err = nil
+		}
+	}
 	return
 }
 
